@@ -194,10 +194,18 @@ func TestBatch(t *testing.T) {
 	jobs := make(chan *Scenario)
 	for w := 0; w < p.Workers; w++ {
 		wg.Add(1)
+		w := w
 		go func() {
 			defer wg.Done()
 			for sc := range jobs {
+				// a panic inside a router goroutine kills this process: leave a
+				// note naming the scenario that was running
+				mark := fmt.Sprintf("%s.running.%d", p.Out, w)
+				if b, err := json.Marshal(sc); err == nil {
+					os.WriteFile(mark, b, 0o644)
+				}
 				impl, mr, mm, mons := runOne(t, &p, sc)
+				os.Remove(mark)
 				var fail *Failure
 				if mm != nil || len(mons) > 0 {
 					key := failureKey(mm, mons)
